@@ -19,8 +19,10 @@ import SoyVerif.Props.C04d
 
 namespace SoyVerif.Props.C14b
 open SoyVerif SoyVerif.Model SoyVerif.Model.JsGen SoyVerif.Spec.JsSemRef SoyVerif.Spec.JsStmt
-open SoyVerif.Props.C04c (toAst accAst)
+open SoyVerif.Props.C04c (toAst accAst Globals GlobalsAre)
 open SoyVerif.Props.C04d
+
+set_option linter.unusedSectionVars false
 
 /-! ## the analysis -/
 
@@ -37,6 +39,7 @@ def readsE : JsExpr → List Bytes
   | .nonNullElse a a' b => readsE a ++ readsE a' ++ readsE b
   | .local g => [g]
   | .optData _ => []
+  | .ijData => []
   | .member x _ => readsE x
   | .index x _ => readsE x
   | .guard g r => readsE g ++ readsE r
@@ -73,10 +76,15 @@ mutual
       if D.contains lim && D.contains step && allIn D (readsE init) && (scopedStmts (idx :: i :: D) body).isSome
       then some (idx :: i :: D) else none
     | .switchS e cases => if allIn D (readsE e) && scopedCases D cases then some D else none
+    | .ifZero idx body => if D.contains idx && (scopedStmts D body).isSome then some D else none
     | .ifPos lim body els =>
       if D.contains lim && (scopedStmts D body).isSome && (scopedStmts D els).isSome then some D else none
     | .call buf _ base params =>
       if D.contains buf && allIn D (readsBase base) && params.all (fun kv => allIn D (readsE kv.2)) then some D else none
+    | .appendCss buf e => if D.contains buf && allIn D (readsE e) then some D else none
+    | .debuggerS => some D
+    | .pluralS e cases dflt =>
+      if allIn D (readsE e) && scopedPlural D cases && (scopedStmts D dflt).isSome then some D else none
   def scopedStmts (D : List Bytes) : JsStmts → Option (List Bytes)
     | .nil => some D
     | .cons s r =>
@@ -88,11 +96,17 @@ mutual
     | .dflt body => (scopedStmts D body).isSome
     | .cons labels body rest =>
       labels.all (fun j => allIn D (readsE j)) && (scopedStmts D body).isSome && scopedCases D rest
+  def scopedPlural (D : List Bytes) : JsPlural → Bool
+    | .nil => true
+    | .cons _ body rest => (scopedStmts D body).isSome && scopedPlural D rest
   def scopedConds (D : List Bytes) : JsConds → Bool
     | .nil => true
     | .els body => (scopedStmts D body).isSome
     | .cons c body rest => allIn D (readsE c) && (scopedStmts D body).isSome && scopedConds D rest
 end
+
+section Dev
+variable [Globals]
 
 /-! ## expressions read scope variables only -/
 
@@ -208,7 +222,13 @@ theorem toAst_reads (D : List Bytes) (sc : Scope) (hc : Covers D sc) :
   | .int _ _, j, h => by simp only [toAst, Option.some.injEq] at h; subst h; rfl
   | .str _ _ _, j, h => by simp only [toAst, Option.some.injEq] at h; subst h; rfl
   | .float _ _, _, h => by simp [toAst] at h
-  | .global _ _, _, h => by simp [toAst] at h
+  | .global _ name, j, h => by
+    unfold toAst at h
+    cases hg : assocGet? Globals.tbl name with
+    | none => simp [hg] at h
+    | some v =>
+      simp only [hg] at h
+      cases v <;> simp only [C04c.globalAst, Option.some.injEq, reduceCtorEq] at h <;> subst h <;> rfl
   | .list _ _, _, h => by simp [toAst] at h
   | .map _ _, _, h => by simp [toAst] at h
   | .neg _ a, j, h => by
@@ -241,6 +261,13 @@ theorem toAst_reads (D : List Bytes) (sc : Scope) (hc : Covers D sc) :
     · cases h
   | .dataRef _ key acc, j, h => by
     unfold toAst at h
+    split at h
+    · simp only [Option.map_eq_some_iff] at h
+      obtain ⟨j0, hacc, rfl⟩ := h
+      have := accAst_reads D acc _ j0 hacc (show allIn D (readsE JsExpr.ijData) = true from rfl)
+      split
+      · exact this
+      · exact this
     split at h
     · cases h
     · simp only [Option.map_eq_some_iff] at h
@@ -462,7 +489,27 @@ mutual
       simp [foreachStmts, JsStmts.one, scopedStmts, scopedStmt, toAst_reads D sc hc list j hj, h4]
     | .forc p v list body (some ie), buf, sc, r, D, h, hs, hc, hb => by
       unfold toCmd at h
-      have h := (loopJoin_some h).resolve_right (by intro h'; have := (rangeJoin_some h').2.1; simp at this)
+      rcases loopJoin_ie_some h with h | ⟨r0, re, hr0, hre, rfl⟩
+      case inr =>
+        obtain ⟨hv, _, args, l, c, jl, ji, rbv, pc, _, _, _, _, hjl, hji, hrb, rfl⟩ := rangeJoin_some hr0
+        obtain ⟨p1, p2, p3⟩ := scOk_pushForRange hs v hv
+        obtain ⟨_, b2, b3⟩ := toBody_scope ae body buf _ rbv hrb p1
+        have hst : rbv.2.pop.stack = sc.stack := by simp only [Scope.pop]; rw [b2, p2]
+        have hn : sc.n ≤ rbv.2.pop.n := by simp only [Scope.pop]; omega
+        have hs' : ScOk rbv.2.pop := scOk_of_stack hs hst hn
+        obtain ⟨c1, _⟩ := toBlock_scope ae ie buf _ re hre hs'
+        have hc2 := covers_pushForRange hc v
+        obtain ⟨D4, h4, _, _⟩ := scoped_body body buf _ rbv _ hrb p1 hc2
+          (Sub.cons _ _ _ (Sub.cons _ _ _ (Sub.cons _ _ _ (Sub.cons _ _ _ hb))))
+        have hsub2 : Sub D ((sc.pushForRange v).1.2.2.1 :: (sc.pushForRange v).1.2.1 :: D) := (Sub.cons _ D).trans (Sub.cons _ _)
+        have hsub : Sub D ((sc.pushForRange v).1.2.2.2 :: (sc.pushForRange v).1.1 :: (sc.pushForRange v).1.2.2.1 ::
+            (sc.pushForRange v).1.2.1 :: D) := (hsub2.trans (Sub.cons _ _)).trans (Sub.cons _ _)
+        obtain ⟨D5, h5, _⟩ := scoped_block ie buf _ re _ hre hs' ((hc.mono hsub).stack hst) (hsub _ hb)
+        refine ⟨_, ?_, (hc.mono hsub).stack (c1.trans hst), hsub⟩
+        have r1 := toAst_reads D sc hc l jl hjl
+        have r2 := allIn_mono (toAst_reads D sc hc _ ji hji) hsub2
+        rw [scopedStmts_append]
+        simp [rangeStmts, JsStmts.one, scopedStmts, scopedStmt, r1, r2, h4, h5, readsE, allIn_nil]
       obtain ⟨hv, _, j, rbv, hj, hrb, he⟩ := forcJoin_some h
       simp only at he
       obtain ⟨re, hre, rfl⟩ := he
@@ -493,8 +540,20 @@ mutual
       refine ⟨D', a1, ?_, a3⟩
       intro f hf kv hkv
       exact a2 f (List.mem_of_mem_tail hf) kv hkv
-    | .css .., _, _, _, _, h, _, _, _ => by simp [toCmd] at h
-    | .debugger .., _, _, _, _, h, _, _, _ => by simp [toCmd] at h
+    | .css p none suffix, buf, sc, r, D, h, hs, hc, hb => by
+      simp only [toCmd, Option.some.injEq] at h; subst h
+      exact ⟨D, by simp only [scopedStmts_one, scopedStmt, hb, if_true], hc, Sub.refl D⟩
+    | .css p (some e) suffix, buf, sc, r, D, h, hs, hc, hb => by
+      simp only [toCmd] at h
+      split at h
+      · rename_i j hj
+        simp only [Option.some.injEq] at h; subst h
+        have hb' : buf ∈ D := by simpa using hb
+        exact ⟨D, by simp [scopedStmts, JsStmts.one, scopedStmt, hb', toAst_reads D sc hc e j hj], hc, Sub.refl D⟩
+      · cases h
+    | .debugger p, buf, sc, r, D, h, hs, hc, hb => by
+      simp only [toCmd, Option.some.injEq] at h; subst h
+      exact ⟨D, by simp only [scopedStmts_one, scopedStmt], hc, Sub.refl D⟩
     | .log .., _, _, _, _, h, _, _, _ => by simp [toCmd] at h
     | .switch p value cases, buf, sc, r, D, h, hs, hc, hb => by
       unfold toCmd at h
@@ -624,7 +683,29 @@ mutual
       obtain ⟨s1, _, _⟩ := toPh_scope ae body buf sc a ha hs
       obtain ⟨D2, b1, b2, b3⟩ := scoped_parts rest buf a.2 b D1 hb2 s1 a2 (a3 _ hb)
       exact ⟨D2, by rw [scopedStmts_append, a1]; exact b1, b2, a3.trans b3⟩
-    | .plural .., _, _, _, _, h, _, _, _ => by simp [toParts] at h
+    | .plural p vn value cases dp dflt rest, buf, sc, r, D, h, hs, hc, hb => by
+      unfold toParts at h
+      obtain ⟨j, rc, rd, rr, hj, hrc, hrd, hstd, hrr, rfl⟩ := pluralJoin_some h
+      obtain ⟨c1, c2, _⟩ := toPCases_scope ae cases buf sc rc hrc hs
+      obtain ⟨d1, _, _⟩ := toParts_scope ae dflt buf rc.2 rd hrd c1
+      have hpc := scoped_pcases cases buf sc rc D hrc hs hc hb
+      obtain ⟨Dd, k1, _, _⟩ := scoped_parts dflt buf rc.2 rd D hrd c1 (hc.stack c2) hb
+      obtain ⟨D2, b1, b2, b3⟩ := scoped_parts rest buf rd.2 rr D hrr d1 (hc.stack hstd) hb
+      refine ⟨D2, ?_, b2, b3⟩
+      simp only [scopedStmts, scopedStmt, toAst_reads D sc hc value j hj, hpc, k1, Option.isSome_some, Bool.and_self, if_true]
+      exact b1
+  theorem scoped_pcases : ∀ (cs : PluralCases) (buf : Bytes) (sc : Scope) (r : JsPlural × Scope) (D : List Bytes),
+      toPCases ae buf cs sc = some r → ScOk sc → Covers D sc → D.contains buf = true → scopedPlural D r.1 = true
+    | .nil, buf, sc, r, D, h, hs, hc, hb => by
+      simp only [toPCases, Option.some.injEq] at h; subst h
+      rfl
+    | .cons p v bp body rest, buf, sc, r, D, h, hs, hc, hb => by
+      unfold toPCases at h
+      obtain ⟨rb, rr, hrb, hst, hrr, rfl⟩ := pcaseJoin_some h
+      obtain ⟨a1, _, _⟩ := toParts_scope ae body buf sc rb hrb hs
+      obtain ⟨D1, k1, _, _⟩ := scoped_parts body buf sc rb D hrb hs hc hb
+      have := scoped_pcases rest buf rb.2 rr D hrr a1 (hc.stack hst) hb
+      simp [scopedPlural, k1, this]
   theorem scoped_ph : ∀ (b : MsgPhBody) (buf : Bytes) (sc : Scope) (r : JsStmts × Scope) (D : List Bytes), toPh ae buf b sc = some r →
       ScOk sc → Covers D sc → D.contains buf = true → After D r
     | .htmlTag p t, buf, sc, r, D, h, hs, hc, hb => by
@@ -699,7 +780,12 @@ theorem no_undeclared_js_variable_partial (ae : Autoescape) (body : CmdList) (n 
   obtain ⟨D', h1, _, _⟩ := scoped_cmds ae body b!"output" _ r _ h hs hc (by simp)
   simp [h1]
 
+end Dev
+
 /-! ## non-vacuity -/
+
+section Examples
+local instance : Globals := exGlobals
 
 example : ((toCmds .on b!"output" sampleCmds ⟨[[]], 0⟩).bind fun r => scopedStmts [b!"output"] r.1) =
     some [b!"x$1", b!"output"] := rfl
@@ -714,5 +800,7 @@ example : scopedStmts [b!"output"]
 
 /-- … and so is appending to a buffer that was never declared -/
 example : scopedStmts [] (.cons (.appendLit b!"output" b!"a") .nil) = none := rfl
+
+end Examples
 
 end SoyVerif.Props.C14b
